@@ -17,7 +17,7 @@ func init() {
 		Rule: "case = (struct type, value) from the C01 corpus (every map key/value cell at 0/1/2/8/9/14/27/53/105/209 entries, every list/set cell, nested containers, by-value and pointer structs, non-empty unknown-field holders, static zoo types, random composites). After one warm-up call, runtime.MemStats.Mallocs is read around K=50 calls of EncodedSize(ptr) and around K=50 calls of EncodeObject(buf>=size, nil, ptr) in a plain-build child with GC off; up to 5 attempts, violation iff the minimum delta over the attempts is > 0 (a real regression allocates on every call, sporadic runtime noise does not). distinct = distinct type-shape signature; non-trivial = the message has at least one field",
 		Plan: func(tier string) []BuildPlan {
 			if tier == "thorough" {
-				return []BuildPlan{{"plain", encEnumerated + 50000}}
+				return []BuildPlan{{"plain", encEnumerated + 400000}}
 			}
 			return []BuildPlan{{"plain", encEnumerated + 1500}}
 		},
